@@ -1384,3 +1384,61 @@ def self_use_program(ctx_i, init_i, mutable):
     op = ":=" if mutable else "::"
     return (SELF_PRE + "start :: fn do\n" + copen + "        r %s %s\n" % (op, init.format(x="r", i="        "))
             + "        print(r)\n" + cclose + "end\n")
+
+
+REEXPORT_SHAPES = ["chain", "alias", "diamond", "cycle", "missing", "collision"]
+
+
+def reexport_projects(r, i):
+    """[(shape, files, single-file source | None)]: one re-export project (shape i mod 6) in EVERY order in which
+    tree() can be made to visit the modules -- main lists the modules with `use` lines in every permutation,
+    before or after its from-import.  Shapes: a chain of from-imports, aliases along the chain, a diamond (the
+    same definition reached through two re-exporting modules: importing the same thing twice is allowed), a
+    cycle (the re-exporting module imports back from main, three rounds), and the two ways such a project must
+    be REJECTED in every order (single-file source None): a name that is missing at the end of the chain, and
+    two different definitions imported under one name."""
+    import itertools
+    val, other = r.sample(range(1, 99), 2)
+    shape = REEXPORT_SHAPES[i % 6]
+    single = EXT_PRINT + "x :: %d\nstart :: fn do\n    print(x)\nend\n" % val
+    body = "start :: fn do\n    print(x)\nend\n"
+
+    def frm(m, src, dst):
+        return "from %s use %s%s" % (m, src, "" if src == dst else " as " + dst)
+    if shape in ("chain", "alias", "missing"):
+        mods = ["a", "b", "c"]
+        # the name under which the value travels: c -> b -> a -> main
+        nb, na = ("y2", "y1") if shape == "alias" else ("x", "x")
+        files = {"/c.sy": EXT_PRINT + "%s :: %d\n" % ("x" if shape != "missing" else "z", val),
+                 "/b.sy": EXT_PRINT + frm("c", "x", nb) + "\n",
+                 "/a.sy": EXT_PRINT + frm("b", nb, na) + "\n"}
+        imp = frm("a", na, "x")
+    elif shape == "diamond":
+        mods = ["a", "b", "c"]
+        files = {"/c.sy": EXT_PRINT + "x :: %d\n" % val,
+                 "/a.sy": EXT_PRINT + "from c use x\n", "/b.sy": EXT_PRINT + "from c use x\n"}
+        imp = "from a use x\nfrom b use x"
+    elif shape == "cycle":
+        mods = ["a", "b"]
+        # a re-exports b's x, imports main's helper back and re-exports main's (imported) x to main as `again`
+        files = {"/b.sy": EXT_PRINT + "x :: %d\n" % val,
+                 "/a.sy": EXT_PRINT + "from b use x\nfrom main use helper\nfrom main use x as again\n"}
+        imp = "from a use x\nfrom a use again"
+        body = "helper :: 0\nstart :: fn do\n    print(again)\nend\n"
+    else:   # collision: two different definitions under the name x
+        mods = ["a", "b", "c", "d"]
+        files = {"/c.sy": EXT_PRINT + "x :: %d\n" % val, "/d.sy": EXT_PRINT + "x :: %d\n" % other,
+                 "/a.sy": EXT_PRINT + "from c use x\n", "/b.sy": EXT_PRINT + "from d use x\n"}
+        imp = "from a use x\nfrom b use x"
+    perms = list(itertools.permutations(mods))
+    if len(perms) > 6:
+        perms = r.sample(perms, 6)
+    out = []
+    for perm in [()] + perms:
+        for before in ((True, False) if perm else (True,)):
+            uses = "\n".join("use %s" % m for m in perm)
+            head = (uses + "\n" + imp) if before else (imp + "\n" + uses)
+            f2 = dict(files)
+            f2["/main.sy"] = EXT_PRINT + head.strip("\n") + "\n" + body
+            out.append((shape, f2, None if shape in ("missing", "collision") else single))
+    return out
